@@ -191,8 +191,8 @@ theorem fromOtherDirs_admissible (extra : Str → List Pattern) (h : FromOtherDi
 
 /-- **Unconditional after the F8 repair**: for every tree and every interference by patterns that
     `Pattern::new` built from ignore files of other directories, the walk equals the schedule-free
-    `walkSpec`.  (`PlainDir`: the other directory's name contains none of `* ? [ \`; `Pattern::new`
-    does not escape the directory it prefixes.) -/
+    `walkSpec`.  (`PlainDir` = a non-root directory; its name may contain any character: `Pattern::new`
+    escapes the directory it prefixes, repair F32.) -/
 theorem C09_parallel_deterministic (extra : Str → List Pattern) (h : FromOtherDirs extra) (t : Tree) :
     walkWith extra globalRules [] t = walkSpec t :=
   walkWith_extra extra (fromOtherDirs_admissible extra h) globalRules [] t
@@ -234,8 +234,8 @@ def exTree' : Tree :=
 
 /-- **Every interleaving.**  `PStep` (PStep.lean) lets any thread start any queued directory and check
     any unchecked child of any started directory at any time, each check seeing whatever has been
-    loaded by then.  For every well-formed tree (`TreeOk`: names are non-empty, contain no `/` and none
-    of `* ? [ \`, entries of one directory have distinct names) every state reachable from the initial
+    loaded by then.  For every well-formed tree (`TreeOk`: names are non-empty and contain no `/` — any other
+    character is allowed since the F32 repair —, entries of one directory have distinct names) every state reachable from the initial
     one has emitted only paths of `walkSpec`, and every *complete* run has emitted exactly `walkSpec`:
     `walk_parallel` under all schedules of its threads and `walk_serial` under all `read_dir` orders
     pick the same set of paths.  No assumption about `extra` is left: it is discharged by the invariant
@@ -262,6 +262,52 @@ example : TreeOk exTree' ∧ ∃ s, PReach exTiny s ∧ s.final ∧ s.emitted = 
   have r3 := PReach.step _ _ r2 (PStep.file _ [] [] _ [] [] "g".toList rfl rfl)
   have r4 := PReach.step _ _ r3 (PStep.done _ [] [] _ rfl rfl rfl)
   exact ⟨_, r4, ⟨rfl, rfl⟩, by decide⟩
+
+/-! ## confinement on path components; directory names are literals -/
+
+/-- `escape_glob` round-trips (F32): the escaped directory part of a glob matches exactly the literal directory,
+    whatever characters its name contains (`[ ] { } * ? ! \\` included) -/
+theorem C09_escape_literal (d p : Str) : globMatch (escapeGlob d) p = true ↔ p = d :=
+  globMatch_escaped_iff d p
+
+/-- **Confinement on components.**  A pattern of the ignore file of the directory with components `D` (non-root,
+    names non-empty and without `/` — nothing else is assumed about them) can only match an entry whose parent
+    directory `A` has `D` as a component-wise prefix: `D` is the parent or a proper ancestor of the entry.  A sibling
+    whose *name extends* `D`'s last name (`data2/`, `data-old/`, `data.tmp` next to `data/`) is never decided by
+    `D`'s ignore file, nor is a directory whose name the un-escaped directory would match as a glob (`d1/` next to
+    `d[1]/`). -/
+theorem C09_confined_components (D A : List Str) (name content : Str) (hne : D ≠ []) (hD : ∀ d ∈ D, NameOk d)
+    (hA : ∀ a ∈ A, NameOk a) (hn : NameOk name) (r : Pattern) (hr : r ∈ rulesOf (pathOf D) content)
+    (hm : r.m (pathOf (A ++ [name])) = true) : D <+: A :=
+  prefix_of_under D A name hD hA hn (rulesOf_confined D hne hD content r hr _ hm)
+
+example :
+    (Pattern.new (.file "data".toList) "*.tmp".toList).m "/data/sub/y.tmp".toList = true ∧
+    (Pattern.new (.file "data".toList) "*.tmp".toList).m "/data2/x.tmp".toList = false ∧
+    (Pattern.new (.file "data".toList) "*.tmp".toList).m "/data.tmp".toList = false ∧
+    (Pattern.new (.file "a/b".toList) "!x.tmp".toList).m "/a/b2/x.tmp".toList = false ∧
+    (Pattern.new (.file "d[1]".toList) "*.tmp".toList).glob = "/d\\[1\\]/**/*.tmp".toList ∧
+    (Pattern.new (.file "d[1]".toList) "*.tmp".toList).m "/d[1]/x.tmp".toList = true ∧
+    (Pattern.new (.file "d[1]".toList) "*.tmp".toList).m "/d1/x.tmp".toList = false ∧
+    (Pattern.new (.file "{a}/q?".toList) "sub/x".toList).m "/{a}/q?/sub/x".toList = true ∧
+    (Pattern.new (.file "{a}/q?".toList) "sub/x".toList).m "/{a}/q1/sub/x".toList = false ∧
+    (Pattern.new (.file "st*r".toList) "x/".toList).m "/star/x/f".toList = false ∧
+    (Pattern.new (.file "st*r".toList) "x/".toList).m "/st*r/x/f".toList = true := by decide
+
+/-- NOT the code — the variant of seeded change C09-4: the scope of an ignore file taken as a *string* prefix
+    (`path.strip_prefix(directory)` without asking for a separator) -/
+def matchesStringPrefix (directory glob path : Str) : Bool :=
+  directory.isPrefixOf path && globMatch glob (path.drop directory.length)
+
+/-- why the scope has to be a component prefix: with a string prefix `*.tmp` of `data/.xvcignore` decides
+    `data2/x.tmp` and the root-level `data.tmp`, although `["data"]` is not a prefix of their parents' components;
+    the model (and the code with F8/F32) does not match them -/
+theorem C09_string_prefix_counterexample :
+    matchesStringPrefix "/data".toList "**/*.tmp".toList "/data2/x.tmp".toList = true ∧
+    matchesStringPrefix "/data".toList "**/*.tmp".toList "/data.tmp".toList = true ∧
+    ¬ (["data".toList] <+: ["data2".toList]) ∧ ¬ (["data".toList] <+: ([] : List Str)) ∧
+    (Pattern.new (.file "data".toList) "*.tmp".toList).m "/data2/x.tmp".toList = false ∧
+    (Pattern.new (.file "data".toList) "*.tmp".toList).m "/data.tmp".toList = false := by decide
 
 /-! ## the rules of a directory depend only on the bytes its ignore-file name resolves to -/
 
@@ -453,6 +499,12 @@ open Ign in
 #print axioms C09_every_schedule
 open Ign in
 #print axioms C09_two_runs_agree
+open Ign in
+#print axioms C09_escape_literal
+open Ign in
+#print axioms C09_confined_components
+open Ign in
+#print axioms C09_string_prefix_counterexample
 open Ign in
 #print axioms C09_rules_of_resolved_bytes
 open Ign in
